@@ -94,7 +94,7 @@ fn lookup_inflight_ids(h: &H, ids: &[Uuid], expect_visible: bool, evals: &mut u6
         let db = h.db().clone();
         let uid = *id;
         let part = partition_of(0);
-        match h.rt.block_on(async move { tokio::time::timeout(Duration::from_secs(5), db.read_event(part, uid)).await }) {
+        match h.rt.block_on(async move { tokio::time::timeout(Duration::from_secs(40), db.read_event(part, uid)).await }) {
             Ok(Ok(None)) => {
                 if expect_visible {
                     out.push(problem("committed-event-missing", format!("event {uid} of the committed transaction is not found")));
@@ -166,7 +166,7 @@ fn atomicity_problems(h: &H, after: &vcommon::model::Model, inflight_ids: &[Uuid
         *evals += 1;
         let d = db.clone();
         let p = *part;
-        if let Ok(Ok(Some(ce))) = h.rt.block_on(async move { tokio::time::timeout(Duration::from_secs(5), d.read_transaction(p, first)).await }) {
+        if let Ok(Ok(Some(ce))) = h.rt.block_on(async move { tokio::time::timeout(Duration::from_secs(40), d.read_transaction(p, first)).await }) {
             let recs: Vec<EventRecord> = ce.into_iter().collect();
             judge_group(&recs, None, &format!("read_transaction(tx #{ti})"), &mut out);
         }
@@ -175,7 +175,7 @@ fn atomicity_problems(h: &H, after: &vcommon::model::Model, inflight_ids: &[Uuid
         *evals += 1;
         let d = db.clone();
         let uid = *id;
-        if let Ok(Ok(Some(rec))) = h.rt.block_on(async move { tokio::time::timeout(Duration::from_secs(5), d.read_event(partition_of(0), uid)).await }) {
+        if let Ok(Ok(Some(rec))) = h.rt.block_on(async move { tokio::time::timeout(Duration::from_secs(40), d.read_event(partition_of(0), uid)).await }) {
             if will_fail {
                 out.push(problem("failed-transaction-visible", format!("read_event returned event {} of the transaction that fails", rec.event_id)));
             }
